@@ -538,7 +538,11 @@ class Machine:
                 if mode[0] == "loc" and isinstance(iv, Const) and isinstance(read_loc(mode[1], mode[2]), Agg):
                     mode = ("loc", mode[1], mode[2] + (iv.v,))
                 else:
-                    mode = ("val", Top("index"))
+                    base = self._read_mode(st, mode)
+                    if base is None or is_top(base) or iv is None or is_top(iv):
+                        mode = ("val", Top("index"))
+                    else:
+                        mode = ("val", self.resolve(st, Fld(strip_ref(base), "[%s]" % show(iv))))
             elif k == "constindex" and not e.get("from_end"):
                 if mode[0] == "loc" and isinstance(read_loc(mode[1], mode[2]), Agg):
                     mode = ("loc", mode[1], mode[2] + (e["offset"],))
